@@ -303,6 +303,19 @@ class Interp1:
             return -self.ev(e.operand)
         if isinstance(e, ast.IfExp):
             return self.ev(e.body) if self.cond(e.test) else self.ev(e.orelse)
+        if isinstance(e, (ast.ListComp, ast.GeneratorExp)) and len(e.generators) == 1 and not e.generators[0].ifs:
+            g = e.generators[0]
+            coll = self.ev(g.iter)
+            if not isinstance(coll, list):
+                raise AnalysisError("emit1: comprehension over %r not modelled" % (coll,))
+            out = []
+            saved = dict(self.env)
+            for x in coll:
+                self.store(g.target, x)
+                out.append(self.ev(e.elt))
+            self.env.clear()
+            self.env.update(saved)
+            return out
         if isinstance(e, (ast.BoolOp, ast.Compare)) or (isinstance(e, ast.UnaryOp) and isinstance(e.op, ast.Not)):
             # a boolean-valued expression stored in a variable: decided like a condition (unknown content -> both ways)
             return self.cond(e)
@@ -319,6 +332,14 @@ class Interp1:
             if isinstance(e.op, ast.Mult):
                 return l * r
             raise AnalysisError("emit1: operator in `%s`" % src(e))
+        if isinstance(e, ast.Subscript) and isinstance(e.slice, ast.Slice):
+            b = self.ev(e.value)
+            if isinstance(b, list) and e.slice.step is None:
+                lo = self.ev(e.slice.lower) if e.slice.lower is not None else None
+                hi = self.ev(e.slice.upper) if e.slice.upper is not None else None
+                if all(x is None or (isinstance(x, Aff) and x.is_const()) for x in (lo, hi)):
+                    return b[(lo.c if lo is not None else None):(hi.c if hi is not None else None)]
+            raise AnalysisError("emit1: slice `%s` not modelled" % src(e)[:60])
         if isinstance(e, ast.Subscript):
             b = self.ev(e.value)
             k = self.ev(e.slice)
@@ -360,6 +381,14 @@ class Interp1:
                 length = self.substs.get(sym, Aff.sym(sym))
                 self.lens[name] = length
                 return Seg(sym, length)
+            if f == "sum" and len(e.args) == 1:
+                vals = self.ev(e.args[0])
+                if isinstance(vals, list):
+                    tot = Aff(0)
+                    for v in vals:
+                        tot = tot + v
+                    return tot
+                raise AnalysisError("emit1: sum(%r) not modelled" % (vals,))
             if f == "range":
                 args = [self.ev(a) for a in e.args]
                 if all(isinstance(a, Aff) and a.is_const() for a in args):
